@@ -83,6 +83,11 @@ Families ==
                    h |-> SetRegion(m) \o SetOrigin(d) \o PlaceWrap(g[1], m, d, y, x, 122)] :
                    m \in Regions(g[2]), d \in BOOLEAN,
                    y \in 0..(g[2] - 1), x \in 0..g[1] } : g \in Geoms }
+    [] Model = "C04sweep" ->
+         \* class-member sweep for drawing: every code point of SweepChars drawn once, at a free position, at the
+         \* pending-wrap column, in insert mode, with autowrap off (widths are facts logged by the harness at replay)
+         UNION { { [c |-> g[1], l |-> g[2], h |-> Fill(g[1], g[2]) \o mm \o PlaceWrap(g[1], <<>>, FALSE, 0, x, 122)] :
+                   mm \in { <<>>, <<EvM("sm", <<4>>, FALSE)>>, <<EvM("rm", <<7>>, TRUE)>> }, x \in {1, g[1]} } : g \in Geoms }
     [] Model = "C18all" ->
          \* every width 1..140 with its power-on stops, cursor at every column incl. pending wrap
          UNION { { [c |-> g[1], l |-> g[2], h |-> PlaceWrap(g[1], <<>>, FALSE, 0, x, 122)] : x \in 0..g[1] } : g \in Geoms }
@@ -183,6 +188,9 @@ Texts == { <<a>> : a \in Alphabet } \cup { <<a, b>> : a \in Alphabet, b \in Alph
          \cup (IF TextLen >= 3 THEN { <<a, b, c>> : a \in Alphabet, b \in Alphabet, c \in {120, WIDE, COMB} } ELSE {})
 ModeNumbers == (0..ModeMax) \cup {96, 160, 192, 224, 800, 1049, 2004, 9999}
 DrawCps == (0..255) \cup {256, 9472, WIDE}
+\* all of 0..900 (ASCII, C1, Latin-1, Latin Extended, IPA, combining diacriticals) and members of the classes further up
+SweepChars == (0..900) \cup {4352, 8203, 8204, 8205, 8206, 8232, 8288, 8413, 9786, 12288, 12295, 19968, 44032, 65039, 65279, 65281,
+                             65533, 127462, 128512, 917505, 1114111}
 
 MoveEvents(s) ==
   { Ev(op, <<n>>) : op \in {"cuu", "cud", "cnl", "cpl", "vpa"}, n \in Params(s.L) }
@@ -191,6 +199,7 @@ MoveEvents(s) ==
   \cup { Ev("bs", <<>>), Ev("cr", <<>>) }
 Events(s) ==
   CASE Model = "C05" -> MoveEvents(s)
+    [] Model = "C04sweep" -> { EvS("draw", <<cp>>) : cp \in SweepChars }
     [] Model = "C18all" -> { Ev("ht", <<>>) }
     [] Model \in {"C18", "C18w"} -> { Ev("ht", <<>>), Ev("hts", <<>>) } \cup { Ev("tbc", <<n>>) : n \in {-1, 0, 1, 2, 3, 4, 9999} }
     [] Model = "C06" -> { Ev(op, <<>>) : op \in {"ind", "lf", "ri"} }
@@ -257,7 +266,7 @@ Next ==
 Spec == Init /\ [][Next]_vars
 
 \* the property a model belongs to
-PropOf == IF Model \in {"C18w", "C18all"} THEN "C18" ELSE Model
+PropOf == IF Model \in {"C18w", "C18all"} THEN "C18" ELSE IF Model = "C04sweep" THEN "C04" ELSE Model
 
 \* Spec |= P : the declarative reading holds on every transition of the family
 Holds == phase = 1 => Decl(pre, ev, post)
